@@ -12,7 +12,7 @@
 (* Everything here is a pure operator: the modules that enumerate cases    *)
 (* (MC_C09, MC_C10) and the source semantics (NslSem) all use these.       *)
 (***************************************************************************)
-EXTENDS Integers, Sequences, FiniteSets
+EXTENDS NslArith, FiniteSets
 
 Comps == {"float", "int", "uint"}
 Scalar(c) == [k |-> "s", c |-> c, r |-> 1, n |-> 1]
@@ -39,10 +39,6 @@ WithComp(t, c) == [t EXCEPT !.c = c]
 Rank(c) == CASE c = "float" -> 3 [] c = "int" -> 2 [] c = "uint" -> 1
 Wider(a, b) == IF Rank(a) >= Rank(b) THEN a ELSE b
 
-CmpOps == {"<", "<=", ">", ">=", "==", "!="}
-LogOps == {"&&", "||"}
-AriOps == {"+", "-", "*", "/", "%"}
-BinOps == CmpOps \cup LogOps \cup AriOps
 Componentwise == {"+", "-", "%", "&&", "||"}
 
 Reject == [ok |-> FALSE]
